@@ -210,6 +210,9 @@ PLANS = {
                 gen=[G("prefixes", 96, 3000, "TraceIter", "TraceIter.cfg")]),
     "C10": dict(level="model_checking", assumptions=TRUST + ["V1 files are built by replacing the V2 trailer of an index_levels=0 file with an independently encoded 21-byte V1 trailer"],
                 gen=[G("roundtrip_v1", 150, 5000, "TraceCursor", "TraceCursor.cfg"),
+                     # the V1 trailer read in short pieces / with interruptions
+                     G("roundtrip_v1", 60, 1000, "TraceCursor", "TraceCursor.cfg", extra=["--rsched", "one"]),
+                     G("roundtrip_v1", 60, 1000, "TraceCursor", "TraceCursor.cfg", extra=["--rsched", "rand41"]),
                      G("seeks_v1", 32, 800, "TraceCursor", "TraceCursor.cfg"),
                      G("history_v1", 48, 1500, "TraceCursor", "TraceCursor.cfg"),
                      G("iters_v1", 48, 1500, "TraceIter", "TraceIter.cfg")]),
